@@ -457,6 +457,10 @@ def get_stale_nodes_unit(ctx):
     ctx.check("C10:engine-runs-process_with_callbacks-on-the-pruned-copy-with-worker_count=max_workers,scheduler='cheap'", bool(ok), props=["C10", "C14"])
     ctx.check("max_errors-left-at-its-default(0):the-check-stops-at-the-first-failure", bool(r is not None and r[4] == 0), props=["C06"])
     built = [x[1] for x in log if x[0] == "lookup-built"]
+    if not (len(built) == 2 and all(isinstance(v, util.Slot) for b in built for v in b.values())):
+        # the per-node results are not kept in two dicts of Slots (e.g. one dict of records): the engine stand-in above cannot play the part of
+        # process() on that representation - this contract does not apply, the per-node units and the probes decide
+        ctx.unsupported("the stale check keeps its per-node results in another representation than two dicts of Slots")
     ok = len(built) == 2 and all(set(b) == {c1, c2, lit} for b in built) and all(isinstance(v, util.Slot) for b in built for v in b.values()) \
         and len({id(v) for b in built for v in b.values()}) == 6
     ctx.check("one-fresh-stale-slot-and-one-fresh-time-slot-per-node", bool(ok), props=["C05"])
